@@ -269,6 +269,14 @@ def _decide(ctx, traces):
     for i, clause in bad[:3]:
         ctx.violation("real Screen rejected by TraceEncoding at clause '%s': %s" % (clause, json.dumps(ok[i])[:500]),
                       {"kind": "raw", "trace": ok[i], "clause": clause})
+    if ok and not bad:
+        from harness.tracecheck import selftest
+
+        def corrupt(t):
+            t["got"]["ids"][0][0] += 1
+            return "one logged treatment id incremented"
+        selftest(ctx, "TraceEncoding", ok[0], corrupt, decide="Decide", next_="TNext", init="TInit",
+                 constants={"Names": {0}, "Doses": {0}, "Zero": ZERO, "Arity": 1, "NRows": 1, "Ctls": {0}, "Mode": "treat", "WithSub": False, "Export": False})
     if ok:
         ctx.sample({"code_to_spec": ok[0]})
 
